@@ -15,6 +15,32 @@ CHECKS = {
             "render executed alone at the reference offset, with fill (or nothing) elsewhere in exactly the box.",
             "Trusts vlib/vterm.py as the terminal, PIL for building sources; bounds in the evidence file.",
             "DESIGN.md 3/C05"),
+    "C14": ("model_checking",
+            "stateless preemption-bounded schedule exploration of real threads under a controlled scheduler",
+            "Stateless, preemption-bounded exploration of every thread/process schedule of 21 (quick) / 27 (thorough) "
+            "harnesses (2-3 threads, 0-2 process starts, fork and spawn semantics, first and second start, grandchild, "
+            "nested and real query functions, reply timing) running the real lock_tty, _process_start_wrapper, "
+            "_process_run_wrapper, query_terminal/read_tty/write_tty and getter bodies. Scheduling points: every lock "
+            "operation and every source line of those frames; a child process is a thread on a second instance of "
+            "utils.py. Oracle: critical-section occupancy <= 1 across all simulated processes, no foreign tty call "
+            "during a query, every reply consumed by its own caller, no deadlock or exception, lock shared after start.",
+            "The fork/spawn process model is trusted and validated by a free-running smoke run with real "
+            "multiprocessing on a pty (forkserver only there). Bounds per harness in the evidence; starts from inside "
+            "a synchronized call are excluded; atomicity granularity is a source line.",
+            "DESIGN.md 3/C14, 2.6"),
+    "C15": ("model_checking",
+            "explicit-state BFS over operation histories to the fixpoint + preemption-bounded schedule exploration",
+            "Explicit-state BFS, to the fixpoint, over histories of {resize, swap toggles, query toggles, "
+            "set_cell_ratio FIXED/DYNAMIC/0.5, get_cell_size, get_cell_ratio, get_fg_bg_colors, "
+            "get_terminal_name_version, BlockImage render, terminal_size_cached/cached probes and their invalidation} "
+            "on the real library against a virtual tty, each transition judged against a nondeterministic reference "
+            "model (a memo may be returned only while its condition holds; fresh otherwise); plus all schedules with "
+            "<= 2/3 preemptions of concurrent first calls of cached / terminal_size_cached / get_cell_size (also racing "
+            "a process start): body runs <= 1 per argument tuple.",
+            "Virtual tty and reference model (vlib/c15_model.py) trusted; states merged by implementation state + "
+            "model belief, cross-checked by unmerged enumeration; AutoCellRatio.is_supported modelled as the "
+            "documented determined-once status; pure pixel changes need not be noticed.",
+            "DESIGN.md 3/C15, B.4"),
 }
 
 PENDING_REASON = "check not built yet in this round (design in DESIGN.md section 3); not claimed"
